@@ -88,7 +88,7 @@ let () =
     | id :: comb :: cont :: nstr :: _ ->
       let n = int_of_string (String.sub nstr 2 (String.length nstr - 2)) in
       let is_group = cont = "group" in
-      let has_ext = (try ignore (Str.search_forward (Str.regexp_string "ext(") case 0); true with Not_found -> false) in
+      let has_ext = (try ignore (Str.search_forward (Str.regexp "ext(\\|iter(") case 0); true with Not_found -> false) in
       let toks = List.tl (split ' ' trace) in
       (match (try Some (parse_trace is_group toks) with Failure _ -> None) with
        | None -> ()
